@@ -750,7 +750,11 @@ pub fn zst(a: &Args, rep: &mut Report) {
             }
             if let Some(e) = err {
                 let hist: Vec<&str> = seq[..=i].iter().map(|x| names[*x]).collect();
-                let prop = if op >= 11 && op <= 15 { "C13" } else { "C01" };
+                let mut prop = if op >= 11 && op <= 15 { "C13" } else { "C01" };
+                // a retain that cannot complete on a zero-sized map / set is C09's finding as well
+                if (op == 8 || op == 15) && rep.prop == "C09" {
+                    prop = "C09";
+                }
                 let tag = format!("zst-{}-{}", flavour(), code);
                 // a panic on a zero-sized map violates C01 (maps), C13 (sets) and C05's element-type clause
                 let msg = format!("zero-sized elements: {} after {:?}", e, hist);
